@@ -315,6 +315,39 @@ pub fn c10(thorough: bool) -> Vec<Part> {
         cfg.max_outstanding_for_respond = 2;
         cfgs.push(cfg);
     }
+    if thorough {
+        // fill/drain cycles: established idle connections may close at any time, late clients
+        // take over the freed slots (and descriptor numbers), again and again
+        let mut clients = vec![];
+        let mut est = ClientCfg::well_behaved(vec![tagged_get(0, 0)]);
+        est.preconnected = true;
+        clients.push(est);
+        for _ in 0..7 {
+            clients.push(ClientCfg::filler());
+        }
+        for _ in 0..2 {
+            let mut idle = ClientCfg::adversary(vec![]);
+            idle.preconnected = true;
+            idle.can_shut_rd = false;
+            idle.can_shut_wr = false;
+            idle.reads = true;
+            clients.push(idle);
+        }
+        for j in 0..3 {
+            let idx = 10 + j;
+            let mut a = ClientCfg::adversary(vec![tagged_get(idx, 0)]);
+            a.reads = true;
+            a.can_shut_rd = false;
+            a.can_shut_wr = false;
+            clients.push(a);
+        }
+        let mut cfg = SrvCfg::base("C10", "fill/drain: 10 established (2 may close) + 3 late clients connecting/sending/closing", clients);
+        cfg.closure_all = true;
+        cfg.release_check = true;
+        cfg.orders = Orders::AscRev;
+        cfg.max_outstanding_for_respond = 2;
+        explore_req(&mut part, &cfg, 3_000_000, 1500.0, &["client_connected_at_capacity_and_was_refused", "ten_connections_open", "accept_reused_descriptor_number_of_released_connection"]);
+    }
     {
         // connections that die while a response is staged (short write under a minimal SO_SNDBUF)
         let mut clients = vec![];
